@@ -13,6 +13,9 @@ import (
 	"io"
 	"net/http"
 	"sort"
+	"strconv"
+
+	"google.golang.org/protobuf/reflect/protoreflect"
 )
 
 var errJSONModel = errors.New("json: invalid input")
@@ -91,6 +94,19 @@ func jsonAppendStreamEnd(b []byte, e *connectStreamEnd) []byte {
 
 func verifModel_encoding_json_Marshal(v any) ([]byte, error) {
 	switch x := v.(type) {
+	case bool:
+		if x {
+			return []byte("true"), nil
+		}
+		return []byte("false"), nil
+	case int32:
+		return []byte(strconv.FormatInt(int64(x), 10)), nil
+	case int64:
+		return []byte(strconv.FormatInt(x, 10)), nil
+	case uint32:
+		return []byte(strconv.FormatUint(uint64(x), 10)), nil
+	case uint64:
+		return []byte(strconv.FormatUint(x, 10)), nil
 	case *connectWireError:
 		return jsonAppendWireError(nil, x), nil
 	case *connectStreamEnd:
@@ -252,7 +268,213 @@ func jsonParseStreamEnd(c *jsonCursor, e *connectStreamEnd) (inSubset bool, err 
 	return true, nil
 }
 
+// ---- scalars (REST query/path parameters are decoded with json.Unmarshal into Go scalars) ----
+
+func jsonWS(c byte) bool { return c == ' ' || c == '\t' || c == '\r' || c == '\n' }
+
+const (
+	jsBad = iota // not a JSON document
+	jsNull
+	jsTrue
+	jsFalse
+	jsNumber
+	jsOther // string, array, object: validated by the real decoder only (outside the model)
+)
+
+func jsonIsLit(b []byte, lit string) bool {
+	if len(b) != len(lit) {
+		return false
+	}
+	for i := range b {
+		if b[i] != lit[i] {
+			return false
+		}
+	}
+	return true
+}
+
+// jsonScalarToken classifies a document made of one literal with optional surrounding whitespace.
+// For numbers it reports whether the literal is a plain integer (no fraction, no exponent).
+func jsonScalarToken(data []byte) (kind int, tok []byte, plainInt bool) {
+	i, j := 0, len(data)
+	for i < j && jsonWS(data[i]) {
+		i++
+	}
+	for j > i && jsonWS(data[j-1]) {
+		j--
+	}
+	tok = data[i:j]
+	if len(tok) == 0 {
+		return jsBad, nil, false
+	}
+	switch c := tok[0]; {
+	case c == '"' || c == '[' || c == '{':
+		return jsOther, tok, false
+	case c == 'n':
+		if jsonIsLit(tok, "null") {
+			return jsNull, tok, false
+		}
+		return jsBad, tok, false
+	case c == 't':
+		if jsonIsLit(tok, "true") {
+			return jsTrue, tok, false
+		}
+		return jsBad, tok, false
+	case c == 'f':
+		if jsonIsLit(tok, "false") {
+			return jsFalse, tok, false
+		}
+		return jsBad, tok, false
+	case c == '-' || (c >= '0' && c <= '9'):
+		k := 0
+		if tok[k] == '-' {
+			k++
+		}
+		if k >= len(tok) || tok[k] < '0' || tok[k] > '9' {
+			return jsBad, tok, false
+		}
+		if tok[k] == '0' {
+			k++
+		} else {
+			for k < len(tok) && tok[k] >= '0' && tok[k] <= '9' {
+				k++
+			}
+		}
+		plain := true
+		if k < len(tok) && tok[k] == '.' {
+			plain = false
+			k++
+			if k >= len(tok) || tok[k] < '0' || tok[k] > '9' {
+				return jsBad, tok, false
+			}
+			for k < len(tok) && tok[k] >= '0' && tok[k] <= '9' {
+				k++
+			}
+		}
+		if k < len(tok) && (tok[k] == 'e' || tok[k] == 'E') {
+			plain = false
+			k++
+			if k < len(tok) && (tok[k] == '+' || tok[k] == '-') {
+				k++
+			}
+			if k >= len(tok) || tok[k] < '0' || tok[k] > '9' {
+				return jsBad, tok, false
+			}
+			for k < len(tok) && tok[k] >= '0' && tok[k] <= '9' {
+				k++
+			}
+		}
+		if k != len(tok) {
+			return jsBad, tok, false
+		}
+		return jsNumber, tok, plain
+	}
+	return jsBad, tok, false
+}
+
+// jsonIntLiteral: magnitude and sign of a plain integer literal; ok=false when the magnitude exceeds 64 bits.
+func jsonIntLiteral(tok []byte) (neg bool, mag uint64, ok bool) {
+	k := 0
+	if tok[0] == '-' {
+		neg = true
+		k = 1
+	}
+	for ; k < len(tok); k++ {
+		d := uint64(tok[k] - '0')
+		if mag > (^uint64(0)-d)/10 {
+			return neg, 0, false
+		}
+		mag = mag*10 + d
+	}
+	return neg, mag, true
+}
+
+// jsonUnmarshalScalar returns handled=false when v is not one of the scalar targets.
+func jsonUnmarshalScalar(data []byte, v any) (handled bool, err error) {
+	bits, signed := 0, false
+	var pb *bool
+	switch x := v.(type) {
+	case *bool:
+		pb = x
+	case *int32:
+		bits, signed = 32, true
+	case *int64:
+		bits, signed = 64, true
+	case *uint32:
+		bits = 32
+	case *uint64:
+		bits = 64
+	case *protoreflect.EnumNumber:
+		bits, signed = 32, true
+	default:
+		return false, nil
+	}
+	kind, tok, plain := jsonScalarToken(data)
+	switch kind {
+	case jsBad:
+		return true, &json.SyntaxError{}
+	case jsOther:
+		verifOutside("json string/array/object given for a scalar (outside the json model)")
+	case jsNull:
+		return true, nil // null leaves the target unchanged
+	}
+	if pb != nil {
+		switch kind {
+		case jsTrue:
+			*pb = true
+		case jsFalse:
+			*pb = false
+		default:
+			return true, &json.UnmarshalTypeError{Value: "number"}
+		}
+		return true, nil
+	}
+	if kind != jsNumber {
+		return true, &json.UnmarshalTypeError{Value: "bool"}
+	}
+	typeErr := &json.UnmarshalTypeError{Value: "number"}
+	if !plain {
+		return true, typeErr
+	}
+	neg, mag, ok := jsonIntLiteral(tok)
+	if !ok {
+		return true, typeErr
+	}
+	if signed {
+		limit := uint64(1) << (bits - 1) // |min|
+		if (neg && mag > limit) || (!neg && mag > limit-1) {
+			return true, typeErr
+		}
+		val := int64(mag)
+		if neg {
+			val = -val
+		}
+		switch x := v.(type) {
+		case *int32:
+			*x = int32(val)
+		case *int64:
+			*x = val
+		case *protoreflect.EnumNumber:
+			*x = protoreflect.EnumNumber(val)
+		}
+		return true, nil
+	}
+	if neg || (bits == 32 && mag > 0xFFFFFFFF) {
+		return true, typeErr
+	}
+	switch x := v.(type) {
+	case *uint32:
+		*x = uint32(mag)
+	case *uint64:
+		*x = mag
+	}
+	return true, nil
+}
+
 func verifModel_encoding_json_Unmarshal(data []byte, v any) error {
+	if handled, err := jsonUnmarshalScalar(data, v); handled {
+		return err
+	}
 	if len(data) == 0 {
 		return errJSONModel
 	}
